@@ -2,6 +2,8 @@ package main
 
 import (
 	"fmt"
+	"os"
+	"sort"
 	"go/token"
 	"go/types"
 	"strings"
@@ -408,6 +410,16 @@ func (x *Exec) applyContract(st *State, fr *Frame, c *FuncContract, key string, 
 		x.oblige(st, "pre", short+":"+r.Label, t, pos)
 		st.assume(t)
 	}
+	// callbacks the callee invokes any number of times: the closure's iteration
+	// invariant holds now, everything the closure may write is havocked, and the
+	// invariant holds again afterwards (it is proved inductive on the closure unit)
+	for _, it := range c.Iterates {
+		cv, ok := env.names[it.Param]
+		if !ok || cv.K != KFunc || cv.Fn == nil {
+			unsupported("iterates %s: argument of %s is not a known closure", it.Param, key)
+		}
+		x.iterateClosure(st, fr, cv, short, pos, it, env)
+	}
 	oldSt := st.clone()
 	// frame
 	x.applyAssigns(st, env, c, args)
@@ -610,6 +622,22 @@ func (x *Exec) builtin(st *State, fr *Frame, name string, args []Value, call *ss
 		}
 		return single(st, x.symbolic(st, intT, "cap"))
 	case "append":
+		if os.Getenv("GOVC_APPEND_ITE") == "" && args[1].Len != "0" {
+			// explore "fits in the capacity" and "reallocates" as two paths: each
+			// VC then speaks about one concrete region instead of ite-terms
+			fits := mkCmp("<=", mkAdd(args[0].Len, args[1].Len), args[0].Cap)
+			a, b := st.clone(), st
+			a.assume(fits)
+			b.assume(mkNot(fits))
+			var outs []Outcome
+			if !x.prunable(a) {
+				outs = append(outs, Outcome{st: a, results: []Value{x.doAppendCase(a, args[0], args[1], pos, 1)}})
+			}
+			if !x.prunable(b) {
+				outs = append(outs, Outcome{st: b, results: []Value{x.doAppendCase(b, args[0], args[1], pos, 2)}})
+			}
+			return outs
+		}
 		return single(st, x.doAppend(st, args[0], args[1], pos))
 	case "copy":
 		return single(st, x.doCopy(st, args[0], args[1], pos))
@@ -667,6 +695,66 @@ func (x *Exec) lenOf(st *State, a Value) string {
 	}
 	unsupported("len of kind %d", a.K)
 	return ""
+}
+
+// doAppendCase: append with the capacity case decided by the path (mode 1: fits, in
+// place; mode 2: reallocation into a fresh region).
+func (x *Exec) doAppendCase(st *State, s, t Value, pos token.Pos, mode int) Value {
+	if t.K == KStr {
+		t = x.convert(st, t, types.NewSlice(types.Typ[types.Byte]), pos)
+	}
+	et := s.T.Underlying().(*types.Slice).Elem()
+	es := x.tc.sortOf(et)
+	name, sort := x.elemHeapName(et)
+	h := x.heapTerm(st, name, sort)
+	n := t.Len
+	newLen := mkAdd(s.Len, n)
+	st.assume(mkCmp("<=", newLen, maxSliceLen))
+	st.pivots = append(st.pivots, s.Len)
+	oldArr := mkSelect(h, s.Rid)
+	srcArr := mkSelect(h, t.Rid)
+	small := int64(-1)
+	if nv, ok := isIntLit(n); ok && nv.Int64() <= 8 {
+		small = nv.Int64()
+	}
+	if mode == 1 {
+		var inPlace string
+		if small >= 0 {
+			inPlace = oldArr
+			for j := int64(0); j < small; j++ {
+				e := mkSelect(srcArr, mkAdd(t.Off, intLit64(j)))
+				inPlace = mkStore(inPlace, mkAdd(mkAdd(s.Off, s.Len), intLit64(j)), e)
+			}
+		} else {
+			ip := x.d.fresh("append.ip", "(Array Int "+es+")")
+			base := mkAdd(s.Off, s.Len)
+			st.assume(fmt.Sprintf("(forall ((j!a Int)) (! (= (select %s j!a) (ite (and (<= %s j!a) (< j!a %s)) (select %s (+ %s (- j!a %s))) (select %s j!a))) :pattern ((select %s j!a))))",
+				ip, base, mkAdd(base, n), srcArr, t.Off, base, oldArr, ip))
+			inPlace = ip
+		}
+		x.setHeap(st, name, mkStore(h, s.Rid, inPlace))
+		return Value{K: KSlice, T: s.T, Rid: s.Rid, Off: s.Off, Len: newLen, Cap: s.Cap}
+	}
+	fresh := x.allocRef(st)
+	ncap := x.d.fresh("append.cap", sInt)
+	st.assume(mkAnd(mkCmp("<=", newLen, ncap), mkCmp("<=", ncap, maxSliceLen)))
+	grown := x.d.fresh("append.arr", "(Array Int "+es+")")
+	st.assume(fmt.Sprintf("(forall ((j!a Int)) (! (=> (and (<= 0 j!a) (< j!a %s)) (= (select %s j!a) (select %s (+ %s j!a)))) :pattern ((select %s j!a))))", s.Len, grown, oldArr, s.Off, grown))
+	var moved string
+	if small >= 0 {
+		moved = grown
+		for j := int64(0); j < small; j++ {
+			e := mkSelect(srcArr, mkAdd(t.Off, intLit64(j)))
+			moved = mkStore(moved, mkAdd(s.Len, intLit64(j)), e)
+		}
+	} else {
+		mv := x.d.fresh("append.mv", "(Array Int "+es+")")
+		st.assume(fmt.Sprintf("(forall ((j!a Int)) (! (= (select %s j!a) (ite (and (<= %s j!a) (< j!a %s)) (select %s (+ %s (- j!a %s))) (select %s j!a))) :pattern ((select %s j!a))))",
+			mv, s.Len, newLen, srcArr, t.Off, s.Len, grown, mv))
+		moved = mv
+	}
+	x.setHeap(st, name, mkStore(h, fresh, moved))
+	return Value{K: KSlice, T: s.T, Rid: fresh, Off: "0", Len: newLen, Cap: ncap}
 }
 
 func (x *Exec) doAppend(st *State, s, t Value, pos token.Pos) Value {
@@ -762,4 +850,95 @@ func (x *Exec) havocGoEffects(st *State, fr *Frame, call *ssa.CallCommon) {
 			st.cells[c] = x.symbolic(st, cv.T, "go."+c.name)
 		}
 	}
+}
+
+// iterateClosure models "the callee calls this closure any number of times".
+func (x *Exec) iterateClosure(st *State, fr *Frame, cv Value, callee string, pos token.Pos, it IterSpec, calleeEnv *SpecEnv) {
+	cc := x.contractOf(funcKey(cv.Fn))
+	preSt := st.clone()
+	var preNames map[string]Value
+	envOf := func() *SpecEnv {
+		e := &SpecEnv{x: x, st: st, old: st, names: map[string]Value{}, pkg: cv.Fn.Pkg.Pkg}
+		for i, fv := range cv.Fn.FreeVars {
+			if i < len(cv.Binds) {
+				e.names[fv.Name()] = x.load(st, cv.Binds[i], pos)
+			}
+		}
+		if preNames == nil {
+			preNames = e.names
+		}
+		e.pre, e.preNames = preSt, preNames
+		return e
+	}
+	if cc != nil {
+		x.usedContracts[funcKey(cv.Fn)] = true
+		e := envOf()
+		for _, inv := range cc.IterInv {
+			x.oblige(st, "iter-init", callee+":"+inv.Label, e.evalBool(inv.E), pos)
+		}
+	}
+	ws := newWriteSet()
+	x.scanFunc(st, fr, cv.Fn, cv.Binds, ws, 0)
+	if cc != nil && cc.HasAssign && !ws.all {
+		// the callback has a frame (proved per invocation on its own unit, with the
+		// stability obligations that make it compose over invocations): captured
+		// variables it assigns are havocked, heaps change only inside the frame
+		// (element windows widened to their regions) and in fresh objects
+		heaps := ws.heaps
+		ws.heaps = map[string]string{}
+		pe := envOf()
+		pe.st, pe.old = preSt, preSt
+		bound := st.alloc
+		x.havocWriteSet(st, ws, "iterates")
+		names := make([]string, 0, len(heaps))
+		for n := range heaps {
+			names = append(names, n)
+		}
+		sort.Strings(names)
+		for _, n := range names {
+			if strings.HasPrefix(n, "IT$") {
+				continue
+			}
+			init := x.heapTerm(st, n, heaps[n])
+			fp := x.footprintFor(pe, cc.Assigns, n).widen()
+			final := x.d.fresh("it."+n, heaps[n])
+			x.setHeap(st, n, final)
+			defer x.assumeHeapWF(st, n, final) // (after the allocation counter was bumped)
+			if fp == nil || !fp.whole {
+				st.assume(x.frameFormula(n, final, init, fp, bound))
+			}
+		}
+	} else {
+		x.havocWriteSet(st, ws, "iterates")
+	}
+	x.bumpAlloc(st)
+	if cc != nil {
+		e := envOf()
+		for _, inv := range cc.IterInv {
+			st.assume(e.evalBool(inv.E))
+		}
+		// the callback's own preconditions hold for every invocation: arbitrary
+		// arguments constrained only by what the callee promises (the with clause)
+		if len(cc.Requires) > 0 {
+			ast := st.clone()
+			ae := envOf()
+			ae.st, ae.old = ast, ast
+			we := &SpecEnv{x: x, st: ast, old: ast, names: map[string]Value{}, pkg: calleeEnv.pkg}
+			for k, v := range calleeEnv.names {
+				we.names[k] = v
+			}
+			for _, p := range cv.Fn.Params {
+				av := x.symbolic(ast, p.Type(), "cbarg."+p.Name())
+				ae.names[p.Name()] = av
+				we.names["$"+p.Name()] = av
+			}
+			if it.With != nil {
+				ast.assume(we.evalBool(it.With))
+			}
+			for _, r := range cc.Requires {
+				x.oblige(ast, "iter-pre", callee+":"+cv.Fn.Name()+":"+r.Label, ae.evalBool(r.E), pos)
+			}
+		}
+	}
+	x.note("callback %s invoked any number of times by %s (iteration invariant of the closure)", cv.Fn.Name(), callee)
 }
